@@ -2,7 +2,7 @@
     the Proofs_C13*.v files, each followed by Print Assumptions.  Tags (* @kernel kind *) are read by the harness. *)
 From Coq Require Import ZArith List Bool.
 From AwkV Require Import Base.
-From AwkKernels Require Import Kernels KLemmas Proofs_C13 Proofs_C13b.
+From AwkKernels Require Import Kernels KLemmas Proofs_C13 Proofs_C13b Proofs_C13c.
 Import ListNotations.
 Open Scope Z_scope.
 
@@ -561,3 +561,151 @@ Theorem C13_reduce_countnonzero_spec :
                   else at_ toptr q.
 Proof. exact reduce_countnonzero_spec. Qed.
 Print Assumptions C13_reduce_countnonzero_spec.
+
+(* @awkward_RegularArray_localindex k_safe *)
+Theorem C13_RegularArray_localindex_safe :
+  forall toindex size n,
+  0 <= size -> 0 <= n -> n * size <= zlen toindex -> RegularArray_localindex toindex size n <> KOob.
+Proof. exact RegularArray_localindex_safe. Qed.
+Print Assumptions C13_RegularArray_localindex_safe.
+
+(* @awkward_RegularArray_getitem_next_range k_safe *)
+Theorem C13_RegularArray_getitem_next_range_safe :
+  forall tocarry rs step n size nextsize,
+  0 <= nextsize -> 0 <= n -> n * nextsize <= zlen tocarry ->
+  RegularArray_getitem_next_range tocarry rs step n size nextsize <> KOob.
+Proof. exact RegularArray_getitem_next_range_safe. Qed.
+Print Assumptions C13_RegularArray_getitem_next_range_safe.
+
+(* @awkward_RegularArray_getitem_carry k_safe *)
+Theorem C13_RegularArray_getitem_carry_safe :
+  forall tocarry fromcarry n size,
+  0 <= size -> 0 <= n -> n <= zlen fromcarry -> n * size <= zlen tocarry ->
+  RegularArray_getitem_carry tocarry fromcarry n size <> KOob.
+Proof. exact RegularArray_getitem_carry_safe. Qed.
+Print Assumptions C13_RegularArray_getitem_carry_safe.
+
+(* @awkward_RegularArray_rpad_and_clip_axis1 k_safe *)
+Theorem C13_RegularArray_rpad_and_clip_axis1_safe :
+  forall toindex target size n,
+  0 <= target -> 0 <= size -> 0 <= n -> n * target <= zlen toindex ->
+  RegularArray_rpad_and_clip_axis1 toindex target size n <> KOob.
+Proof. exact RegularArray_rpad_and_clip_axis1_safe. Qed.
+Print Assumptions C13_RegularArray_rpad_and_clip_axis1_safe.
+
+(* @awkward_index_rpad_and_clip_axis0 k_safe *)
+Theorem C13_index_rpad_and_clip_axis0_safe :
+  forall toindex target n,
+  0 <= n -> target <= zlen toindex -> index_rpad_and_clip_axis0 toindex target n <> KOob.
+Proof. exact index_rpad_and_clip_axis0_safe. Qed.
+Print Assumptions C13_index_rpad_and_clip_axis0_safe.
+
+(* @awkward_index_rpad_and_clip_axis0 k_spec *)
+Theorem C13_index_rpad_and_clip_axis0_spec :
+  forall toindex target n,
+  0 <= n -> 0 <= target -> zlen toindex = target ->
+  index_rpad_and_clip_axis0 toindex target n
+  = KOk (iota (Z.min target n) ++ repeat (-1) (Z.to_nat (target - Z.min target n))).
+Proof. exact index_rpad_and_clip_axis0_spec. Qed.
+Print Assumptions C13_index_rpad_and_clip_axis0_spec.
+
+(* @awkward_index_rpad_and_clip_axis1 k_safe *)
+Theorem C13_index_rpad_and_clip_axis1_safe :
+  forall tostarts tostops target n,
+  n <= zlen tostarts -> n <= zlen tostops -> index_rpad_and_clip_axis1 tostarts tostops target n <> KOob.
+Proof. exact index_rpad_and_clip_axis1_safe. Qed.
+Print Assumptions C13_index_rpad_and_clip_axis1_safe.
+
+(* @awkward_ListArray_localindex k_safe *)
+Theorem C13_ListArray_localindex_safe :
+  forall toindex offsets n,
+  n + 1 <= zlen offsets ->
+  (forall i, 0 <= i < n -> 0 <= at_ offsets i /\ at_ offsets (i + 1) <= zlen toindex) ->
+  ListArray_localindex toindex offsets n <> KOob.
+Proof. exact ListArray_localindex_safe. Qed.
+Print Assumptions C13_ListArray_localindex_safe.
+
+(* @awkward_ListArray_getitem_carry k_safe *)
+Theorem C13_ListArray_getitem_carry_safe :
+  forall tC tostarts tostops starts stops carry lenstarts n,
+  n <= zlen carry -> n <= zlen tostarts -> n <= zlen tostops ->
+  lenstarts <= zlen starts -> lenstarts <= zlen stops ->
+  (forall i, 0 <= i < n -> 0 <= at_ carry i) ->
+  ListArray_getitem_carry tC tostarts tostops starts stops carry lenstarts n <> KOob.
+Proof. exact ListArray_getitem_carry_safe. Qed.
+Print Assumptions C13_ListArray_getitem_carry_safe.
+
+(* @awkward_IndexedArray_numnull k_safe *)
+Theorem C13_IndexedArray_numnull_safe :
+  forall numnull index n,
+  n <= zlen index -> 1 <= zlen numnull -> IndexedArray_numnull numnull index n <> KOob.
+Proof. exact IndexedArray_numnull_safe. Qed.
+Print Assumptions C13_IndexedArray_numnull_safe.
+
+(* @awkward_IndexedArray_numnull k_spec *)
+Theorem C13_IndexedArray_numnull_spec :
+  forall numnull index,
+  1 <= zlen numnull ->
+  exists out, IndexedArray_numnull numnull index (zlen index) = KOk out /\ zlen out = zlen numnull /\
+    at_ out 0 = zlen (filter (fun x => x <? 0) index) /\ forall q, 1 <= q -> at_ out q = at_ numnull q.
+Proof. exact IndexedArray_numnull_spec. Qed.
+Print Assumptions C13_IndexedArray_numnull_spec.
+
+(* @awkward_ListArray_min_range k_safe *)
+Theorem C13_ListArray_min_range_safe :
+  forall tC tomin starts stops n,
+  1 <= zlen starts -> 1 <= zlen stops -> n <= zlen starts -> n <= zlen stops -> 1 <= zlen tomin ->
+  ListArray_min_range tC tomin starts stops n <> KOob.
+Proof. exact ListArray_min_range_safe. Qed.
+Print Assumptions C13_ListArray_min_range_safe.
+
+(* @awkward_ListArray_rpad_and_clip_length_axis1 k_safe *)
+Theorem C13_ListArray_rpad_and_clip_length_axis1_safe :
+  forall tC tomin starts stops target n,
+  n <= zlen starts -> n <= zlen stops -> 1 <= zlen tomin ->
+  ListArray_rpad_and_clip_length_axis1 tC tomin starts stops target n <> KOob.
+Proof. exact ListArray_rpad_and_clip_length_axis1_safe. Qed.
+Print Assumptions C13_ListArray_rpad_and_clip_length_axis1_safe.
+
+(* @awkward_sorting_ranges_length k_safe *)
+Theorem C13_sorting_ranges_length_safe :
+  forall tolength parents n,
+  n <= zlen parents -> 1 <= zlen tolength -> sorting_ranges_length tolength parents n <> KOob.
+Proof. exact sorting_ranges_length_safe. Qed.
+Print Assumptions C13_sorting_ranges_length_safe.
+
+(* @awkward_ListOffsetArray_reduce_local_nextparents_64 k_safe *)
+Theorem C13_reduce_local_nextparents_safe :
+  forall nextparents offsets n,
+  1 <= zlen offsets -> n + 1 <= zlen offsets ->
+  (forall i, 0 <= i < n -> at_ offsets 0 <= at_ offsets i /\ at_ offsets (i + 1) - at_ offsets 0 <= zlen nextparents) ->
+  reduce_local_nextparents nextparents offsets n <> KOob.
+Proof. exact reduce_local_nextparents_safe. Qed.
+Print Assumptions C13_reduce_local_nextparents_safe.
+
+(* @awkward_NumpyArray_copy k_safe *)
+Theorem C13_NumpyArray_copy_safe :
+  forall toptr fromptr n,
+  n <= zlen fromptr -> n <= zlen toptr -> NumpyArray_copy toptr fromptr n <> KOob.
+Proof. exact NumpyArray_copy_safe. Qed.
+Print Assumptions C13_NumpyArray_copy_safe.
+
+(* @awkward_NumpyArray_copy k_spec *)
+Theorem C13_NumpyArray_copy_spec :
+  forall toptr fromptr,
+  zlen fromptr <= zlen toptr ->
+  NumpyArray_copy toptr fromptr (zlen fromptr) = KOk (fromptr ++ skipn (length fromptr) toptr).
+Proof. exact NumpyArray_copy_spec. Qed.
+Print Assumptions C13_NumpyArray_copy_spec.
+
+(* @awkward_ListArray_combinations_length k_spec *)
+Theorem C13_ListArray_combinations_length_spec :
+  forall totallen tooffsets n replacement starts stops,
+  zlen stops = zlen starts -> 1 <= zlen totallen -> zlen starts + 1 <= zlen tooffsets ->
+  exists tl to, ListArray_combinations_length TIdeal totallen tooffsets n replacement starts stops (zlen starts) = KOk (tl, to) /\
+    at_ tl 0 = comb_sum n replacement starts stops (length starts) /\
+    zlen to = zlen tooffsets /\
+    forall q, 0 <= q -> at_ to q = if q <=? zlen starts then comb_sum n replacement starts stops (Z.to_nat q)
+                                   else at_ tooffsets q.
+Proof. exact ListArray_combinations_length_spec. Qed.
+Print Assumptions C13_ListArray_combinations_length_spec.
